@@ -158,7 +158,7 @@ def run_shard(acc, prop, tier, seed, shard, nshards, **kw):
         fn_leg(acc, srv, sub_rng(seed, PROP, tier, shard, "fn"), 20000 if tier == "quick" else 600000)
     finally:
         srv.close()
-    _w.shard(acc, PROP, tier, seed, shard, nshards, factory, WEIGHTS, (12, (120, 220)), (500, (120, 300)), CORR)
+    _w.shard(acc, PROP, tier, seed, shard, nshards, factory, WEIGHTS, (12, (120, 220)), (220, (120, 300)), CORR)
 
 
 def floors(acc, tier):
